@@ -9,6 +9,7 @@ import (
 	"encoding/json"
 	"fmt"
 	"math"
+	"sort"
 	"strings"
 	"testing"
 	"unicode"
@@ -228,9 +229,47 @@ func newC16Engine() *c16Engine {
 		}
 		e.fns[f.name] = f
 		e.exprs[f.name] = ex
+		// the context-defaulting form of the same call: p0.$f(rest) must agree
+		// with $f(p0, rest) (the other arguments are read from the root)
+		if c16CtxForms[f.name] && strings.HasPrefix(f.expr, "$") && strings.Contains(f.expr, "(p0") {
+			ctx := strings.Replace(f.expr, "(p0, ", "(", 1)
+			ctx = strings.Replace(ctx, "(p0)", "()", 1)
+			for _, p := range []string{"p1", "p2", "p3"} {
+				ctx = strings.ReplaceAll(ctx, p, "$$."+p)
+			}
+			ctx = "p0." + ctx
+			cex, o := port.Compile(ctx)
+			if o != nil {
+				panic("C16 expression does not compile: " + ctx + ": " + o.String())
+			}
+			twin := f
+			twin.name, twin.expr = f.name+"-ctxform", ctx
+			e.fns[twin.name] = twin
+			e.exprs[twin.name] = cex
+			c16Shapes[twin.name] = c16Shapes[f.name]
+		}
 	}
 	return e
 }
+
+// list returns every function / law incl. the context-form twins, by name.
+func (e *c16Engine) list() []c16Fn {
+	var names []string
+	for n := range e.fns {
+		names = append(names, n)
+	}
+	sort.Strings(names)
+	out := make([]c16Fn, len(names))
+	for i, n := range names {
+		out[i] = e.fns[n]
+	}
+	return out
+}
+
+// c16CtxForms: functions whose first argument defaults to the context item
+// for the argument shapes used here.
+var c16CtxForms = map[string]bool{"substring2": true, "substring3": true, "pad2": true, "pad3": true, "substringBefore": true, "substringAfter": true,
+	"trim": true, "uppercase": true, "lowercase": true, "contains": true, "replace3": true, "replace4": true} // not $split: a path step normalises its array result
 
 func (e *c16Engine) run(c c16Case) (msg string, judged bool) {
 	f, ok := e.fns[c.Fn]
@@ -349,7 +388,7 @@ func TestC16_Exhaustive(t *testing.T) {
 		if si%nshards != shard {
 			continue
 		}
-		for _, f := range c16Functions() {
+		for _, f := range eng.list() {
 			shape := c16Shapes[f.name]
 			switch shape {
 			case "s":
@@ -425,7 +464,7 @@ func TestC16_Random(t *testing.T) {
 	rec := begin(t, "C16", "rapid: subject strings of up to 12 characters over the same alphabet and arbitrary Unicode strings, separators/pad strings of length 0..3, numeric parameters over -8..8 in steps of 0.5 and a few large ones; same functions, laws and oracles; non-trivial = a multi-byte character or a negative / beyond-the-end parameter; distinct by (function, arguments)")
 	defer finish(t, rec)
 	eng := c16Eng()
-	fns := c16Functions()
+	fns := eng.list()
 	genStr := func(max int) *rapid.Generator[string] {
 		return rapid.OneOf(
 			rapid.Map(rapid.SliceOfN(rapid.SampledFrom(c16Alphabet), 0, max), func(p []string) string { return strings.Join(p, "") }),
